@@ -1061,7 +1061,8 @@ func toDataPointGroupProto(in *message.DataPointGroup) (*autogen.DataPointGroup,
 
 func toDataIDOrAliasProto(in message.DataIDOrAlias, out *autogen.DataPointGroup) error {
 	if in == nil {
-		return nil
+		// a group without data id cannot be decoded by the peer: refuse to encode it
+		return errors.Errorf("invalid DataIDOrAlias nil: %w", errors.ErrMalformedMessage)
 	}
 	switch v := in.(type) {
 	case *message.DataID:
